@@ -129,12 +129,28 @@ Theorem component_projection_adjoint_adjoint_partial : forall (ws : list (list T
   (i < length ws)%nat -> length pw = length ws -> nth i pw nzero = none_ ->
   vconj (pweights pw ws) = pweights pw ws -> vconj (nth i ws []) = nth i ws [] -> leaf_ok (LProjAdj ws pw i).
 Proof. exact (leaf_ok_projadj OK). Qed.
+(* T1: PointwiseInner / PointwiseInnerAdjoint (and PointwiseSum): k >= 1 components, any vector field g,
+   any real base weights, any real nonzero product-space weights pw and any real operator weights ow
+   (the `dom_w / ran_w` correction of PointwiseInnerAdjoint is exactly what is needed). *)
+Theorem pointwise_inner_adjoint : forall (wb pw : list T) (g : list (list T)) (ow : list T), g <> [] ->
+  length pw = length g -> length ow = length g ->
+  Forall (fun gi => length gi = length wb) g ->
+  Forall (fun p => nconj p = p /\ p <> nzero) pw -> Forall (fun o => nconj o = o) ow ->
+  leaf_ok (LPtInner wb pw g ow).
+Proof. exact (leaf_ok_ptinner OK). Qed.
+Theorem pointwise_inner_adjoint_adjoint : forall (wb pw : list T) (g : list (list T)) (ow : list T), g <> [] ->
+  length pw = length g -> length ow = length g ->
+  Forall (fun gi => length gi = length wb) g ->
+  Forall (fun p => nconj p = p /\ p <> nzero) pw -> Forall (fun o => nconj o = o) ow ->
+  vconj wb = wb -> leaf_ok (LPtInnerAdj wb pw g ow).
+Proof. exact (leaf_ok_ptinner_adj OK). Qed.
 End Builtins.
 Print Assumptions scaling_adjoint.
 Print Assumptions matrix_adjoint_partial.
 Print Assumptions sampling_adjoint_partial.
 Print Assumptions flattening_adjoint_partial.
 Print Assumptions component_projection_adjoint_partial.
+Print Assumptions pointwise_inner_adjoint.
 
 (* PartialDerivative on a 1-d discretisation: the operator named by the regenerated
    _ADJ_METHOD/_ADJ_PADDING tables, negated, IS the adjoint for all 30 (method, padding)
@@ -148,6 +164,31 @@ Theorem partial_derivative_adjoint_partial : forall (c dx : R) (n : nat) (m : me
   leaf_ok (LPDeriv (repeat c n) (repeat c n) [n] 0 m p dx).
 Proof. exact leaf_ok_pderiv_1d. Qed.
 Print Assumptions partial_derivative_adjoint_partial.
+
+(* Real <-> complex operators, realified (C^n = R^2n as re ++ im with weights w ++ w, so that
+   [cinner] is the REAL PART of the complex inner product): RealPart/ImagPart of a real space,
+   ComplexEmbedding(s) of a complex space (any s, any weights), and -- for the repaired variant
+   fx = true, in which RealPart(X).adjoint is defined on X.real_space -- RealPart, ImagPart,
+   ComplexEmbedding(real space, s) in all three branches of its adjoint (s real / imaginary / general). *)
+Theorem realpart_real_adjoint : forall w : list R, leaf_ok (LRealR w).
+Proof. exact leaf_ok_realR. Qed.
+Theorem imagpart_real_adjoint : forall w : list R, leaf_ok (LImagR w).
+Proof. exact leaf_ok_imagR. Qed.
+Theorem complex_embedding_complex_adjoint : forall (w : list R) (sr si : R), leaf_ok (LEmbedC w sr si).
+Proof. exact leaf_ok_embedC. Qed.
+Theorem realpart_complex_adjoint_fixed_variant : forall w : list R, leaf_ok (LRealC w true).
+Proof. exact leaf_ok_realC_fixed. Qed.
+Theorem imagpart_complex_adjoint_fixed_variant : forall w : list R, leaf_ok (LImagC w true).
+Proof. exact leaf_ok_imagC_fixed. Qed.
+Theorem complex_embedding_real_adjoint_fixed_variant : forall (w : list R) (sr si : R), leaf_ok (LEmbedR w sr si true).
+Proof. exact leaf_ok_embedR_fixed. Qed.
+Print Assumptions complex_embedding_real_adjoint_fixed_variant.
+(* FULL STATEMENT for the pinned source (fx = false) is false: the returned adjoint is an operator on
+   the COMPLEX space (finding realpart-complex-adjoint-domain) *)
+Theorem realpart_complex_adjoint_domain_refuted :
+  dom (leaf_adjoint (LRealC [1%R] false)) <> leaf_ran (LRealC [1%R] false)
+  /\ dom (leaf_adjoint (LImagC [1%R] false)) <> leaf_ran (LImagC [1%R] false).
+Proof. exact realC_adjoint_domain_refuted. Qed.
 
 (* ------------------------------------------------------------------------
    The full statement is FALSE of the faithful model on non-uniformly weighted
